@@ -159,8 +159,9 @@ pub fn contended(n: usize) -> Tree {
 }
 
 /// independent chance events declared WITHOUT an infoset and with identical weights, two of them on one path: player
-/// one sees the first coin and takes a sure 1 or bets 4 : 0 that the second coin matches it (the bet is worth 2 - only
-/// because the coins are independent); below "tails" a third fair coin and a 1 : 3 coin decide among player two's tables
+/// one sees the first coin and takes a sure 2 or bets 3 : 0 that the second coin matches it (the bet is worth 1.5 because
+/// the coins are independent - it would be worth 3 if both nodes followed one draw); below "tails" a third fair coin and
+/// a 1 : 3 coin decide among player two's tables
 pub fn coins() -> Tree {
     let t = |x: i64| Tree::T { pay: Num::I(x) };
     let coin = |a: Tree, b: Tree| Tree::C { ci: "none".into(), kids: vec![CKid { w: Num::I(1), t: a }, CKid { w: Num::I(1), t: b }] };
@@ -168,8 +169,8 @@ pub fn coins() -> Tree {
         pl: 1,
         info: info.into(),
         kids: vec![
-            PKid { a: "safe".into(), t: t(1) },
-            PKid { a: "bet".into(), t: if hit_first { coin(t(4), t(0)) } else { coin(t(0), t(4)) } },
+            PKid { a: "safe".into(), t: t(2) },
+            PKid { a: "bet".into(), t: if hit_first { coin(t(3), t(0)) } else { coin(t(0), t(3)) } },
         ],
     };
     let table = |info: &str, x: i64| Tree::P { pl: 2, info: info.into(), kids: vec![PKid { a: "l".into(), t: t(x) }, PKid { a: "r".into(), t: t(-x) }] };
